@@ -419,7 +419,18 @@ def cleanRun (c : Cfg) (enc : PDict → List Char) : St → List Op → Prop
   | st, .noise n :: ops => ¬ marker c.tag <:+: st.cur ++ n ∧ cleanRun c enc (st.noise n) ops
   | st, .report kw now perf :: ops => cleanRun c enc (st.call c enc kw now perf).1 ops
 
-/-- the two diagnostics of `_serialize_report_dict` are harmless noise for this tag -/
+/-- the dictionary a successful call sends -/
+def sentDict (c : Cfg) (st : St) (dkw : PDict) (now perf : Rat) : PDict :=
+  dkw ++ (extras c st now perf st.iter).map fun e => (e.1, Plain.leaf e.2)
+
+/-- the two diagnostics of `_serialize_report_dict` (`'T…\n'`) are harmless noise for this tag -/
+structure DiagOK (tag : List Char) : Prop where
+  noT : 'T' ∉ marker tag
+  nl : '\n' ∉ marker tag
+  typeTail : ¬ marker tag <:+: diagType.tail
+  sizeTail : ¬ marker tag <:+: diagSize.tail
+
+/-- executable form of `DiagOK` -/
 def diagOKB (tag : List Char) : Bool :=
   !((marker tag).contains 'T') && !((marker tag).contains '\n') &&
     decide (¬ marker tag <:+: diagType.tail) && decide (¬ marker tag <:+: diagSize.tail)
